@@ -275,6 +275,8 @@ class Screen:
         if fp is not None:
             return ("footprint", fp)
         ins = fo.get("inputs", [])
+        if any(p[-1] in (self.buf_cols, self.buf_rows) for p in w.E.summaries[callee].W):
+            return ("whole",)          # a re-layout: every row may change, whatever position it is handed
         for i, ty in enumerate(ins):
             if ty["s"] == "(usize, usize)":
                 tt = T.operand(t["args"][i], pt)
